@@ -26,6 +26,26 @@ inline void draw_runtime_config(Desc& d, int maxP = 6, bool allow_warm = true) {
     }
 }
 
+// Worker allotment under a zero soft limit (hook H7): the single "mandatory" worker exists for arenas that hold
+// enqueued work; if such an arena also has worker demand and nobody is granted a worker, enqueued work cannot start.
+// Used by the C16 allotment oracle and, alone, by the C02 scenarios (raised before oneTBB's own assertion).
+inline std::string allotment_vector(int n, const int* level, const int* minw, const int* maxw, const int* allot) {
+    std::string v;
+    for (int i = 0; i < n; ++i) v += fmt(" [level %d mandatory %d demand %d -> %d]", level[i], minw[i], maxw[i], allot[i]);
+    return v;
+}
+inline void check_mandatory_allotment(int soft, int mand, int total, int n, const int* level, const int* minw, const int* maxw, const int* allot) {
+    if (soft != 0 || mand <= 0) return;
+    int sum = 0, entitled = 0;
+    for (int i = 0; i < n; ++i) { sum += allot[i]; if (minw[i] > 0 && maxw[i] > 0) ++entitled; }
+    if (entitled > 0 && sum == 0)
+        sim::fail("oracle:mandatory-worker-denied", "soft limit 0, %d mandatory request(s), total demand %d: an arena that holds enqueued work and worker demand is granted no worker and neither is anybody else:%s",
+                  mand, total, allotment_vector(n, level, minw, maxw, allot).c_str());
+    for (int i = 0; i < n; ++i)
+        if (allot[i] > 0 && minw[i] == 0)
+            sim::fail("oracle:mandatory-worker-denied", "soft limit 0: the mandatory worker is granted to an arena without enqueued work:%s", allotment_vector(n, level, minw, maxw, allot).c_str());
+}
+
 // Unit-of-work bookkeeping: every unit must start at most once, finish at most once.
 struct Units {
     struct U { int started = 0, finished = 0; int fiber = -1; bool running = false; bool cancellable = false; uint64_t payload = 0; };
